@@ -56,7 +56,8 @@ std::string gen_message(Truth& t) {
         std::string v = rnd_token(sim::rnd(5) == 0 ? 100 + sim::rnd(300) : 1 + sim::rnd(30), "abcdefghijklmnopqrstuvwxyz0123456789=;,/\" ");
         while (!v.empty() && v.back() == ' ') v.pop_back();
         while (!v.empty() && v.front() == ' ') v.erase(0, 1);
-        if (v.empty()) v = "v";
+        // an empty field value is valid HTTP ("X-Empty:" CRLF); one header in ten has one
+        if (sim::rnd(10) == 0) v.clear(); else if (v.empty()) v = "v";
         t.headers.push_back({k, v});
     }
     size_t blen = sim::rnd(4) == 0 ? 0 : (sim::rnd(4) == 0 ? 4000 + sim::rnd(30000) : sim::rnd(600));
@@ -70,7 +71,8 @@ std::string gen_message(Truth& t) {
     else if (t.framing == 2) t.headers.push_back({"Connection", "close"});
     // random position for the framing header
     if (!t.headers.empty()) std::swap(t.headers.back(), t.headers[sim::rnd(t.headers.size())]);
-    for (auto& kv : t.headers) w += kv.first + ": " + kv.second + "\r\n";
+    // optional whitespace after the colon: none, one or two spaces
+    for (auto& kv : t.headers) { uint64_t o = sim::rnd(8); w += kv.first + (o == 0 ? ":" : o == 1 ? ":  " : ": ") + kv.second + "\r\n"; }
     w += "\r\n";
     if (t.framing == 1) {
         size_t off = 0;
